@@ -125,17 +125,16 @@ def find_impl(masked: str, header: str):
     """Find `impl ... {` whose normalised header equals `header`; returns (body_open, body_close).
     header == "" means the whole file (free functions)."""
     if not header:
-        return (-1, len(masked))
+        return [(-1, len(masked))]
     want = norm_ws(header)
     hits = []
     for m in re.finditer(r"\b(impl|trait|mod)\b[^{;]*\{", masked):
         h = norm_ws(masked[m.start():m.end() - 1])
         if h == want or h == "pub " + want:
             hits.append(m.end() - 1)
-    if len(hits) != 1:
-        raise ExtractError("impl header %r matched %d times" % (header, len(hits)))
-    o = hits[0]
-    return (o, match_brace(masked, o))
+    if not hits:
+        raise ExtractError("impl header %r not found" % (header,))
+    return [(o, match_brace(masked, o)) for o in hits]
 
 
 def find_fn(src: str, masked: str, name: str, lo: int, hi: int):
